@@ -104,10 +104,10 @@ func c13Occurrence(c *vrep.Ctx) {
 		panic("c13 needs the v1 instrumentation profile (library goroutines must be modelled threads)")
 	}
 	alpha := []string{"a", "b", "c", ","}
-	maxTok := c.Pick(3, 4)
-	pairTok := c.Pick(2, 3)
+	maxTok := c.ParamInt("maxtok", c.Pick(3, 4))
+	pairTok := c.ParamInt("pairtok", c.Pick(2, 3))
 	ctxAlpha := []string{"x", "y", "a", ".", ")"}
-	maxCtx := c.Pick(1, 2)
+	maxCtx := c.ParamInt("maxctx", c.Pick(1, 2))
 	single := c13Values(alpha, maxTok)
 	small := c13Values(alpha, pairTok)
 	ctxs := append([]c13Value{{nil}}, c13Values(ctxAlpha, maxCtx)...)
@@ -117,7 +117,7 @@ func c13Occurrence(c *vrep.Ctx) {
 		sep  string
 	}{{"none", nil, " "}, {"FlattenWhitespace", []NormalizeFunc{FlattenWhitespace}, " \n  "}}
 	ts := []float64{0.5, 0.8, 1}
-	c.R.Rule = fmt.Sprintf("ALL known-value sets over tokens {a,b,c,','}: every single value of 1..%d tokens, every pair of values of 1..%d tokens (none inside another; second value absent, or both present: separated by an unrelated token, by one blank, glued, or overlapping) and long values of 40/80 tokens and of EVERY length 1..128, alone or next to a registered near-duplicate (one character of one token changed, 40/80/400 tokens, its name sorting before or after) and values with leading / trailing white space (blank, line break, two blanks) x ALL unknowns pre+K+post with pre/post of 0..%d tokens over {x,y,a} containing exactly one occurrence of K (family 'glued' attaches word or punctuation context without a blank: glued punctuation leaves the copy token aligned and is demanded exactly, glued letters are the recorded finding) x normaliser lists {none, FlattenWhitespace with multi-blank separators} x thresholds %v; MultipleMatch must report K with Confidence 1.0 and Offset/Extent of exactly that copy, NearestMatch(K) = (K, 1.0), all confidences in (0,1], all ranges inside the normalised unknown; library goroutines run as modelled threads (default schedule); non-trivial = distinct (value set, unknown, normaliser, threshold) cases", maxTok, pairTok, maxCtx, ts)
+	c.R.Rule = fmt.Sprintf("ALL known-value sets over tokens {a,b,c,','}: every single value of 1..%d tokens, every pair of values of 1..%d tokens (none inside another; second value absent, or both present: separated by an unrelated token, by one blank, glued, or overlapping) and long values of 40/80 tokens and of EVERY length 1..128, alone or next to a registered near-duplicate (one character of one token changed, 40/80/400 tokens, its name sorting before or after) and values with leading / trailing white space (blank, line break, two blanks) x ALL unknowns pre+K+post with pre/post of 0..%d tokens over {x,y,a} containing exactly one occurrence of K (family 'glued' attaches word or punctuation context without a blank: glued punctuation and glued letters - also letters of two or three bytes and stray Latin-1 bytes - are demanded exactly) x normaliser lists {none, FlattenWhitespace with multi-blank separators} x thresholds %v; MultipleMatch must report K with Confidence 1.0 and Offset/Extent of exactly that copy, NearestMatch(K) = (K, 1.0), all confidences in (0,1], all ranges inside the normalised unknown; library goroutines run as modelled threads (default schedule); non-trivial = distinct (value set, unknown, normaliser, threshold) cases", maxTok, pairTok, maxCtx, ts)
 	c.Bound("max_value_tokens", maxTok)
 	c.Bound("max_context_tokens", maxCtx)
 	body := func(r *vx.Run) {
